@@ -404,13 +404,13 @@ def r9_nodes_immutable(ctx):
 
 
 RULES = [
-    Rule('C16.R1', 'index entries name existing well-formed maps; keys unambiguous; packaged', r1_index, floor=40),
+    Rule('C16.R1', 'index entries name existing well-formed maps; keys unambiguous; packaged', r1_index, floor=30),
     Rule('C16.R2', 'every data_ele / external code reference resolves; dataele lengths sane', r2_refs, floor=20000),
     Rule('C16.R3', 'usage/pos/seq/repeat/max_use/regex parse as the constructors parse them; seq is 1..n', r3_fields, floor=20000),
     Rule('C16.R4', 'syntax notes well formed and within their segment', r4_syntax, floor=1500),
-    Rule('C16.R5', 'same-position sibling segments are distinguishable by the is_match discriminator', r5_siblings, floor=300),
+    Rule('C16.R5', 'same-position sibling segments are distinguishable by the is_match discriminator', r5_siblings, floor=225),
     Rule('C16.R6', 'loop/segment paths unique per map and found again by getnodebypath', r6_paths, floor=3000),
-    Rule('C16.R7', 'both map-location branches of the four loaders open the same file', r7_loader_branches, floor=18),
-    Rule('C16.R8', 'model field names = constructor field names; accessor pairs read one name', r8_model_fields, floor=8),
-    Rule('C16.R9', 'loaded map nodes are read-only outside their constructors (only parameterless path caches)', r9_nodes_immutable, floor=3),
+    Rule('C16.R7', 'both map-location branches of the four loaders open the same file', r7_loader_branches, floor=13),
+    Rule('C16.R8', 'model field names = constructor field names; accessor pairs read one name', r8_model_fields, floor=6),
+    Rule('C16.R9', 'loaded map nodes are read-only outside their constructors (only parameterless path caches)', r9_nodes_immutable, floor=2),
 ]
